@@ -3,6 +3,7 @@
 mod checks;
 mod core;
 mod sched;
+mod wire;
 
 use std::time::Instant;
 
